@@ -34,9 +34,19 @@ class Ctx:
         self.leaves.append((name, ty, constraint))
         return name
 
-    def decls(self):
+    def decls(self, concrete=False):
         out = []
-        for (n, ty, c) in self.leaves:
+        for idx, (n, ty, c) in enumerate(self.leaves):
+            if concrete:
+                # fixed, pairwise different values inside the leaf's range: a twin of the symbolic harness that
+                # stays cheap when a changed reader desynchronises (symbolic junk lengths make CBMC explode)
+                if ty == "bool": v = "true" if idx % 2 == 0 else "false"
+                elif c and "< 3" in c: v = str(idx % 3)
+                elif c and "<= 8" in c: v = str(1 + idx % 8)
+                elif ty == "u8": v = str(3 + idx)
+                else: v = str(40 + 8 * idx)
+                out.append("let %s: %s = %s;" % (n, ty, v))
+                continue
             out.append("let %s: %s = kani::any();" % (n, ty))
             if c:
                 out.append("kani::assume(%s);" % c.replace("$", n))
@@ -570,9 +580,11 @@ def heavy(node):
 def tier_of(kind, tier, name, node):
     if heavy(node): return "x"
     if kind in ("c13s", "c13z", "c06s"):
+        if isinstance(node, TraitLike) and len(node.methods) >= 2 and kind != "c13z": return "x"   # > 30 min
         if isinstance(node, TraitLike) and node.methods and kind != "c13z": return "t"
         if isinstance(node, Struct) and node.fields: return "t"
     if kind == "c13d" and isinstance(node, TraitLike) and node.methods: return "x"   # diff of trait definitions with methods: > 10 min
+    if kind == "c06s" and isinstance(node, TraitLike) and len(node.methods) >= 2: return "x"
     return tier
 
 def emit():
@@ -603,6 +615,14 @@ def emit():
                      'assert!(crate::scmp::enum_same(&e2, &expect), "C13: format-0 enum schema node decodes to a different schema");',
                      "std::mem::forget(e2); std::mem::forget(expect);", 'kani::cover!(true, "reached end");']
             mods["c13e"][tier].append("kproof!(%s_f0, %d, {\n        %s\n    });" % (name, uwe, "\n        ".join(body)))
+            for f in (0, 2):
+                ctx = Ctx("a"); i = node.inst(ctx)
+                body = ctx.decls(concrete=True) + ["let mut r = RefBuf2::new();"] + i.data["enum_ref"](f)
+                body += ["let (e2, left) = enum_from(&r.b[..r.n], %d).unwrap();" % f, 'assert!(left == 0, "C13: enum schema reader did not consume the whole node (concrete instance)");',
+                         "let expect: SchemaEnum = %s;" % (i.data["enum_erased"] if f == 0 else i.data["enum_build"]),
+                         'assert!(crate::scmp::enum_same(&e2, &expect), "C13: enum schema node decodes to a different schema (concrete instance)");',
+                         "std::mem::forget(e2); std::mem::forget(expect);", 'kani::cover!(true, "reached end");']
+                mods["c13e"][tier].append("kproof!(%s_f%dc, %d, {\n        %s\n    });" % (name, f, uwe, "\n        ".join(body)))
             pairs = [("pair", node)] + [("edit_" + l, en) for (l, en) in edits(node)]
             for (label, other) in pairs:
                 ca, cb = Ctx("a"), Ctx("b")
@@ -652,6 +672,16 @@ def emit():
         body.append('assert!(crate::scmp::schema_same(&s2, &expect), "C13: format-0 schema section decodes to a different schema");')
         body += ["std::mem::forget(s2); std::mem::forget(expect);", 'kani::cover!(true, "reached end");']
         mods["c13z"][tier_of("c13z", tier, name, node)].append("kproof!(%s_f0, %d, {\n        %s\n    });" % (name, uw, "\n        ".join(body)))
+        if isinstance(node, (Struct, TraitLike)) or node.size() >= 2:
+            ctx = Ctx("a")
+            i = node.inst(ctx)
+            body = ctx.decls(concrete=True) + ["let mut r = RefBuf2::new();"] + i.ref(0)
+            body.append("let (s2, left) = schema_from(&r.b[..r.n], 0).unwrap();")
+            body.append('assert!(left == 0, "C13: format-0 schema reader did not consume the whole section (concrete instance)");')
+            body.append("let expect: Schema = %s;" % i.erased)
+            body.append('assert!(crate::scmp::schema_same(&s2, &expect), "C13: format-0 schema section decodes to a different schema (concrete instance)");')
+            body += ["std::mem::forget(s2); std::mem::forget(expect);", 'kani::cover!(true, "reached end");']
+            mods["c13z"][tier_of("c13z", tier, name, node)].append("kproof!(%s_f0c, %d, {\n        %s\n    });" % (name, uw, "\n        ".join(body)))
         # ---- C13 diff: same shape, independent leaves: diff is None <=> oracle (non-trait shapes); traits: reflexive only
         ca, cb = Ctx("a"), Ctx("b")
         ia, ib = node.inst(ca), node.inst(cb)
